@@ -166,7 +166,8 @@ def report_pickup_request(
     :return: a pickup request report
     """
 
-    event_sim_time = next_sim.sim_time - next_sim.sim_timestep_duration_seconds
+    # the pickup happens during the time step that begins at the current sim time
+    event_sim_time = next_sim.sim_time
 
     geoid = vehicle.geoid
     lat, lon = h3.h3_to_geo(geoid)
